@@ -6,7 +6,7 @@
 cd "$(dirname "$0")"
 expect="
 C01_m1:C01 C01_m6:C01 C02_m3:C02 C02_m5:C02 C06_m1:C06 C06_m2:C06 C06_m3:C06 C06_m4:C06 C06_m5:C06
-C11_m1:C11 C12_m2:C12 C12_m3:C12 C12_m4:C12 C12_m5:C12
+C11_m1:C11 C11_m4:C11 C12_m2:C12 C12_m3:C12 C12_m4:C12 C12_m5:C12
 C13_m1:C13 C13_m2:C13 C13_m4:C13 C13_m5:C13
 C14_m1:C14 C14_m2:C14 C14_m4:C14 C14_m5:C14 C14_m6:C14
 C15_m1:C15 C15_m2:C15 C15_m3:C15 C15_m4:C15 C15_m5:C15
@@ -15,11 +15,20 @@ C17_m1:C17 C17_m2:C17 C17_m3:C17 C17_m4:C17 C17_m5:C17
 C18_m1:C18 C18_m2:C18 C18_m3:C18 C18_m4:C18 C18_m5:C18
 C19_m1:C19 C19_m2:C19 C19_m3:C19 C19_m4:C19 C19_m5:C19 C19_m6:C19 C19_m7:C19
 "
-rc=0
-for e in $expect; do
-  s=${e%%:*}; p=${e##*:}
-  if [ $# -gt 0 ]; then case " $* " in *" $p "*) ;; *) continue;; esac; fi
+# SELFTEST_JOBS=n runs n seeds side by side (each check already uses about a dozen solver processes)
+one() {
+  e=$1; s=${e%%:*}; p=${e##*:}
   n=$(./seedtest.sh $s $p 2>&1 | grep -c "^VIOLATION")
-  if [ "$n" -ge 1 ]; then echo "caught  $s by $p ($n)"; else echo "MISSED  $s by $p"; rc=1; fi
+  if [ "$n" -ge 1 ]; then echo "caught  $s by $p ($n)"; else echo "MISSED  $s by $p"; fi
+}
+export -f one
+sel=""
+for e in $expect; do
+  p=${e##*:}
+  if [ $# -gt 0 ]; then case " $* " in *" $p "*) ;; *) continue;; esac; fi
+  sel="$sel $e"
 done
-exit $rc
+out=$(printf '%s\n' $sel | xargs -P ${SELFTEST_JOBS:-1} -I{} bash -c 'one {}')
+echo "$out"
+if echo "$out" | grep -q "^MISSED"; then exit 1; fi
+exit 0
